@@ -91,8 +91,18 @@ impl Receiver {
 /// A handle to submit work to be done to a worker receiver
 ///
 /// Multiple Sender handles can be created with `.clone()`.
-#[derive(Clone)]
 pub struct Sender(Arc<State>);
+
+impl Clone for Sender {
+    #[inline]
+    fn clone(&self) -> Self {
+        // every handle decrements the count when it is dropped, so it has to be counted
+        // when it is created. The caller already holds a handle, which keeps the count
+        // above zero, so no ordering with other accesses is required.
+        self.0.senders.fetch_add(1, Ordering::Relaxed);
+        Self(self.0.clone())
+    }
+}
 
 impl Sender {
     /// Submits `count` jobs to be executed by the worker receiver
